@@ -1,0 +1,26 @@
+//go:build verif
+
+package sse
+
+import "sync/atomic"
+
+// Verification instrumentation (build tag "verif" only): named yield points
+// inside Joe at which an installed hook may delay the calling goroutine and
+// record that the point was reached. The hook never changes Joe's state.
+
+var verifHook atomic.Pointer[func(point string)]
+
+// SetVerifHook installs (or, with nil, removes) the function called at every yield point.
+func SetVerifHook(f func(point string)) {
+	if f == nil {
+		verifHook.Store(nil)
+		return
+	}
+	verifHook.Store(&f)
+}
+
+func verifYield(point string) {
+	if f := verifHook.Load(); f != nil {
+		(*f)(point)
+	}
+}
